@@ -4,6 +4,7 @@ Everything is drawn from the random.Random handed in; nothing here hashes a
 string, iterates a set or looks at a clock, so the same stream gives the same
 history under every PYTHONHASHSEED (checked by the determinism self-test).
 """
+import keyword as _keyword
 from .model import Spec, Model, ModelReject, model_step, has_ref
 
 LETTERS = "abcdefghijklmnopqrstuvwxyz"
@@ -114,6 +115,8 @@ def gen_spec(rng, cfg):
         if ctype == "dict" and mode == "ref" and cfg.get("npkeys") and rng.random() < 0.3:
             ctype = "npdict"
         label = "%s%s" % (labels[i], salt if cfg.get("salt_labels", True) else "")
+        if _keyword.iskeyword(label) or label in ("f", "math", "None", "True", "False"):
+            label += "q"             # 'r' + 'aise', 'o' + 'r', 't' + 'ry' ...: a label must be usable as a name in printed text
         roots.append((label, mode, ctype, children(ctype, max(share[i], 1), 1)))
     return Spec(tuple(roots), funcs=cfg.get("funcs", True))
 
